@@ -214,6 +214,7 @@ type Net struct {
 	Ref         *RefDigests // C07: digests of the uncrashed reference run
 	pnames      map[string]string
 	injStats    *InjStats
+	solo        *soloBlocks
 }
 
 type altBlock struct {
